@@ -74,9 +74,20 @@ impl SweepJob {
             let idx = spec.params.get("index")?.as_u64()? as usize;
             let (calls, _, _) = crate::docsig::calls();
             let c = calls.get(idx)?;
-            let mut sc = Scenario::standard(&crate::docsig::program(&c.call), Limits::calibration());
+            // "big": the variant with one large argument, so that the function's own allocations are reachable size-fault points
+            let (label, call) = match spec.params.get("big").and_then(|v| v.as_u64()) {
+                Some(k) => crate::docsig::big_variants(c).into_iter().nth(k as usize)?,
+                None => (c.label.clone(), c.call.clone()),
+            };
+            let mut sc = Scenario::standard(&crate::docsig::program(&call), Limits::calibration());
             sc.perms = [Some(true); 6];
-            sc.label = format!("C06 {}", c.label);
+            sc.label = format!("C06 {label}");
+            if spec.params.get("big").is_some() {
+                // with working callbacks over hundreds of elements the unlimited run is long: the reference keeps modest budgets
+                sc.reference_budgets = Some((2_000, 20_000));
+                sc.limits.search = Some(2_000);
+                sc.limits.ud_call = Some(20_000);
+            }
             sc
         } else if spec.kind == "carrier" {
             let ci = spec.params.get("carrier")?.as_u64()? as usize;
@@ -419,6 +430,17 @@ impl DocErrorsJob {
                 let call = format!("{}({})", c.name, args.join(", "));
                 let text = format!("{}\nfn main()->str{{ get_error({call}).or(\"<value>\") }}\n", crate::docsig::PRELUDE);
                 cases.push((format!("{} arg{}", c.label, i + 1), text, i + 1));
+            }
+            // two erroring arguments: the leftmost one is the result
+            for i in 0..c.args.len() {
+                for j in (i + 1)..c.args.len() {
+                    let mut args = c.args.clone();
+                    args[i] = format!("if(false, {}, error(\"E{}\"))", c.args[i], i + 1);
+                    args[j] = format!("if(false, {}, error(\"E{}\"))", c.args[j], j + 1);
+                    let call = format!("{}({})", c.name, args.join(", "));
+                    let text = format!("{}\nfn main()->str{{ get_error({call}).or(\"<value>\") }}\n", crate::docsig::PRELUDE);
+                    cases.push((format!("{} arg{}+arg{}", c.label, i + 1, j + 1), text, i + 1));
+                }
             }
         }
         DocErrorsJob { cases }
